@@ -56,6 +56,7 @@ func c05Alphabet() []rEvent {
 		rPacket("B2", 0x0704, 2, 2, 21, bodyB[1]),
 		rPacket("H", 0x0002, 0, 0, 30, nil),
 		rPacket("L", 0x0200, 0, 0, 31, ref.Loc28(0, 0)),
+		rPacket("B0", 0x0704, 0, 0, 32, ref.SampleBody(0x0704, false, "", 0)), // an ORDINARY message with the ID of transfer B
 		rPacket("A#0", 0x0801, 3, 0, 40, []byte{1}),
 		rPacket("A#4", 0x0801, 3, 4, 41, []byte{2}),
 		rPacket("C#2", 0x0800, 2, 2, 42, []byte{3}),
@@ -71,6 +72,7 @@ func c14Alphabet() []rEvent {
 		rPacket("Y1", 0x0704, 2, 1, 20, bodyB[0]),
 		rPacket("Y2", 0x0704, 2, 2, 21, bodyB[1]),
 		rPacket("H", 0x0002, 0, 0, 30, nil),
+		rPacket("Y0", 0x0704, 0, 0, 32, ref.SampleBody(0x0704, false, "", 0)), // an ordinary message with the ID of transfer Y
 		{Name: "+4999ms", Advance: 4999},
 		{Name: "+5001ms", Advance: 5001},
 		{Name: "+30s", Advance: 30000},
@@ -652,7 +654,7 @@ func rReplay(raw json.RawMessage) string {
 func init() {
 	vc.Register(&vc.Check{
 		ID: "C05", Level: "model_checking",
-		Rule: "breadth-first search over ALL histories up to depth 5 (thorough 6) of the events {A1,A2,A3 (0x0801, N=3, unequal bodies, one escape-dense), B1,B2 (0x0704, N=2), heartbeat, location, A#0, A#4 (impossible numbers), C#2 (no transfer of that ID), D1/1 (N=1)} on the REAL reassembler, each history fed one frame per read, all frames coalesced, every frame split in the middle, two frames per read, under EVERY 1-cut for depth <= 3, and through the real connection for depth <= 3 (handlers must see complete messages only, one reply each); then the same search with deduplication on (real state, reference state) run to its FIXPOINT (every reachable reassembler state over this alphabet at any depth, one frame per read and coalesced); plus N=255 transfers in forward, reverse and interleaved order. " +
+		Rule: "breadth-first search over ALL histories up to depth 5 (thorough 6) of the events {A1,A2,A3 (0x0801, N=3, unequal bodies, one escape-dense), B1,B2 (0x0704, N=2), heartbeat, location, B0 (an unfragmented 0x0704: an ordinary message carrying the ID of a transfer in progress), A#0, A#4 (impossible numbers), C#2 (no transfer of that ID), D1/1 (N=1)} on the REAL reassembler, each history fed one frame per read, all frames coalesced, every frame split in the middle, two frames per read, under EVERY 1-cut for depth <= 3, and through the real connection for depth <= 3 (handlers must see complete messages only, one reply each); then the same search with deduplication on (real state, reference state) run to its FIXPOINT (every reachable reassembler state over this alphabet at any depth, one frame per read and coalesced); plus N=255 transfers in forward, reverse and interleaved order. " +
 			"Histories that repeat packet 1 of an active transfer leave the property's precondition and are skipped. states = distinct canonical reassembler states (slot occupancy, buffered bytes) per worker, summed; transitions = reads. Non-trivial = history that completes at least one transfer",
 		Assumptions: []string{"reference reassembler in checks/c05.go", "accessor VerifParser (tag verif) for the extractor-level search; connection-level replays use no accessor"},
 		Run: func(ctx *vc.Ctx, rep *vc.Report) {
@@ -672,7 +674,7 @@ func init() {
 	})
 	vc.Register(&vc.Check{
 		ID: "C14", Level: "model_checking",
-		Rule: "breadth-first search with state deduplication over histories up to depth 6 (thorough 8) of {X1,X2,X3 (N=3), Y1,Y2 (N=2), heartbeat, +4999ms, +5001ms, +30s, +55s, +60001ms} on the REAL reassembler under a virtual clock, one frame per read and frames of one instant coalesced; plus, for N=2..6, EVERY non-empty set of missing packets x idle time {4999,5001,30000,55000,60001} ms x {no, partial, full} resupply x second idle time, and N=255 families (each single packet missing, evens, odds, all but the first, all but first and last); representative histories through the real connection (0x8003 on the socket once, with the next platform serial); 2..8 transfers of different message IDs stalled at once, on the reassembler and through the connection (one re-request each, two rounds). " +
+		Rule: "breadth-first search with state deduplication over histories up to depth 6 (thorough 8) of {X1,X2,X3 (N=3), Y1,Y2 (N=2), heartbeat, Y0 (an unfragmented message with Y's ID), +4999ms, +5001ms, +30s, +55s, +60001ms} on the REAL reassembler under a virtual clock, one frame per read and frames of one instant coalesced; plus, for N=2..6, EVERY non-empty set of missing packets x idle time {4999,5001,30000,55000,60001} ms x {no, partial, full} resupply x second idle time, and N=255 families (each single packet missing, evens, odds, all but the first, all but first and last); representative histories through the real connection (0x8003 on the socket once, with the next platform serial); 2..8 transfers of different message IDs stalled at once, on the reassembler and through the connection (one re-request each, two rounds). " +
 			"states = distinct canonical reassembler states (slot occupancy and ages relative to now) per worker, summed; transitions = reads. Non-trivial = history that triggers a re-request, an expiry or a completion",
 		Assumptions: []string{"idle/age exactly equal to 5 s / 60 s is not exercised (the property does not say which side the boundary belongs to)", "the clock is virtual (vtime); no wall clock"},
 		Run: func(ctx *vc.Ctx, rep *vc.Report) {
